@@ -102,15 +102,23 @@ theorem runScript_agree (fm : FMachine σ α β) (cbN : Nat → Option Fault) (m
     (runScript fm (nextPlan cbN) mode sub raw).2 = [] ∧
       Agree (runScript fm (nextPlan cbN) mode sub raw).1 (runOp (inject fm cbN) mode sub raw) := by
   have hsi : (inject fm cbN).subscribes = true := hs
+  -- no terminal at subscribe time: the downstream subscriber is open when `Subscribe` returns, so
+  -- `RunSt.afterSubscribe` (teardown added to an already closed subscription) changes nothing here;
+  -- the fault interpreter has that step too (`opSubscribe`: `if s1.dDone then opTeardown …`)
+  have hopen : ((inject fm cbN).start sub).downOpen = true := by
+    rw [(start_tracks (inject fm cbN) sub).open_]
+    simp only [inject]; rw [hsub]; rfl
+  have hafter : ∀ m : SrcMode, ((inject fm cbN).start sub).afterSubscribe m = (inject fm cbN).start sub := by
+    intro m; simp [RunSt.afterSubscribe, hopen]
   cases mode with
   | sync =>
     obtain ⟨p1, p2⟩ := opSubscribe_sync fm cbN sub raw hs hsub
-    simp only [runScript, runOp, hsi, if_true, p1, Option.toList]
+    simp only [runScript, runOp, hsi, if_true, p1, Option.toList, hafter]
     exact ⟨trivial, p2⟩
   | hot =>
     obtain ⟨p1, p2⟩ := opSubscribe_hot fm cbN sub hs hsub
     obtain ⟨q1, q2⟩ := pushAfter_sim fm cbN raw _ _ [] p2
-    simp only [runScript, runOp, hsi, if_true, p1, Option.toList]
+    simp only [runScript, runOp, hsi, if_true, p1, Option.toList, hafter]
     exact ⟨q1, q2.agree_hot⟩
 
 end Ro.Fault
